@@ -462,7 +462,10 @@ def rule_ip(ck):
             ck.ob("C43.ip", fi, c, h is not None, "%s from getaddrinfo is handled (a non-address is rejected, not raised)" % exc, construct="getaddrinfo protected from %s" % exc)
             if h is not None:
                 rets = [r for st in h.body for r in q.walk_local(st) if isinstance(r, ast.Return)]
-                ck.ob("C43.ip", fi, h, bool(rets) and all(q.is_const(r.value, False) for r in rets), "the %s handler answers False" % exc, construct="handler %s returns False" % exc)
+                if not rets:
+                    # single-exit style: the handler falls through and a result variable decides; the value is not decided here
+                    raise AnalysisError("C43.ip: the %s handler of is_valid_ip does not return; the answer for a non-address is computed in an unrecognised way" % exc)
+                ck.ob("C43.ip", fi, h, all(q.is_const(r.value, False) for r in rets), "the %s handler answers False" % exc, construct="handler %s returns False" % exc)
     # early rejections (before getaddrinfo decides): only inputs that are certainly not addresses may be turned away
     LONGEST = "0000:0000:0000:0000:0000:ffff:255.255.255.255"   # 45 characters, a valid textual IPv6 address (RFC 4291 2.2 form 3)
     pmf = q.parent_map(fi.node)
